@@ -181,6 +181,7 @@ func cmdTokens(args []string) {
 			emitRT(em, p.Tokens(), p.Entropy, "generated")
 		}
 	}
+	flushRT(em)
 	em.Close()
 	fmt.Printf("{\"events\":%d}\n", em.N)
 }
